@@ -555,6 +555,8 @@ struct Plan {
     /// Field-aware mutation: in the wide rows (columns 0..16) or the extra-types rows
     /// (columns 17..23) the cells of one column are cut to this many bytes.
     cell_cut: Option<(usize, usize)>,
+    /// Field-aware mutation: the SCYLLA_SHARDING_IGNORE_MSB one node announces.
+    odd_msb: Option<u8>,
 }
 
 /// Prepared statement with a three-column partition key (and the marker bind).
@@ -680,6 +682,7 @@ pub fn run(req: &RunRequest) -> Value {
                 nometa_bomb: None,
                 vec_cell_len: None,
                 cell_cut: None,
+                odd_msb: None,
             }
         } else {
             let fault_free = tape::chance("c08:fault_free", 1, 10);
@@ -733,12 +736,23 @@ pub fn run(req: &RunRequest) -> Value {
                 } else {
                     None
                 },
+                odd_msb: if cellfuzz && tape::chance("c08:odd_msb", 1, 2) {
+                    Some([0u8, 63, 64, 65, 127, 255][tape::choose("c08:msb_value", 6) as usize])
+                } else {
+                    None
+                },
             }
         };
         let mut cluster = Cluster::new("c08");
         let shards = if plan.sharded { 2 } else { 0 };
         cluster.add_node("dc1", "r1", shards, vec![-3000, 3000]);
         cluster.add_node("dc1", "r2", shards, vec![0, 6000]);
+        // Sampled fuzz runs with sharded nodes: the sharding parameters a node announces in
+        // SUPPORTED are numbers from the network like any other (1 in 4: an unusual
+        // SCYLLA_SHARDING_IGNORE_MSB on the second node).
+        if let Some(v) = plan.odd_msb {
+            cluster.nodes[1].msb_ignore = v;
+        }
         client::standard_catalog(&mut cluster, Strategy::Simple(2), false);
         cluster.keyspaces.push(KeyspaceDef {
             name: "kst".into(),
@@ -934,7 +948,7 @@ async fn main(plan: Plan) -> Outcome {
         fetch_schema: true,
         ..SessionCfg::default()
     };
-    let clean = plan.mutation.is_none() && plan.deep_nesting.is_none() && plan.custom_types.is_none() && plan.vec_cell_len.is_none() && plan.nometa_bomb.is_none() && plan.cell_cut.is_none();
+    let clean = plan.mutation.is_none() && plan.deep_nesting.is_none() && plan.custom_types.is_none() && plan.vec_cell_len.is_none() && plan.nometa_bomb.is_none() && plan.cell_cut.is_none() && plan.odd_msb.is_none();
     let session: Arc<Session> = {
         // Auth is negotiated by the mock regardless of the credentials.
         let built = step(&mut out, "session", async {
